@@ -79,7 +79,10 @@ class Gen:
             # starred items in list/tuple/set displays, ** in dict displays
             self.features.add("starred-display")
             xs, e = self.expr("ilist", depth - 1), self.expr("int", depth - 1)
-            return self.pick(["len([*%s, %s])", "sum((*%s, %s))", "len({*%s, %s})", "len({**{'k': len(%s)}, 'j': %s})"]) % (xs, e)
+            return self.pick(["len([*%s, %s])", "sum((*%s, %s))", "len({*%s, %s})", "len({**{'k': len(%s)}, 'j': %s})",
+                              # colliding keys: the later item wins, whether it is unpacked or spelled out
+                              "{'a': len(%s), **d0}['a'] + %s", "{**d0, **{'a': len(%s)}}['a'] + %s",
+                              "{**{'a': len(%s)}, 'a': %s}['a']"]) % (xs, e)
         if k == 0:
             return str(self.draw(st.integers(-2, 9)))
         if k == 1:
